@@ -174,7 +174,7 @@ def gen_signal(rng, min_len=1, max_len=80):
                 sig = [x * 2.0 ** 500 for x in sig]
             elif m == "wide":
                 # from the top of the double range to its bottom within one recording
-                sig = [x * 2.0 ** (480 - 16 * i) for i, x in enumerate(sig)][:66]
+                sig = [x * 2.0 ** (500 - 17 * i) for i, x in enumerate(sig)][:66]
             else:
                 sig = [x * 2.0 ** (-12 * i) for i, x in enumerate(sig)][:70]
         else:
